@@ -1,5 +1,5 @@
 """C10 - UCI move text round-trips and is accepted exactly when such a move exists."""
-from . import ucirules, apirules, genrules
+from . import ucirules, apirules, genrules, attackrules
 
 
 def run(ctx):
@@ -24,3 +24,10 @@ def run(ctx):
     ucirules.inference_rule(ctx, facts, "X4", thorough)
     genrules.wellformed_rule(ctx, facts, "X5")
     genrules.semilegal_rule(ctx, facts, "X6", thorough=True)
+    ctx.decided += [
+        "X7 the legal-checking reader's last gate: Checker::is_legal examines the king against the occupancy and the attacker set *after* the "
+        "move - the moved man on its destination (also when it captures there), the captured man and the en-passant victim removed - and the "
+        "pin shortcut is never taken by an en passant capture (= C01/N2, N4 re-run)",
+    ]
+    attackrules.prechecker_rule(ctx, facts, "X7p")
+    attackrules.checker_rule(ctx, facts, "X7")
